@@ -95,7 +95,7 @@ VALS2 = ["v0", "v1"]
 FRESH = [f"~fresh{i}" for i in range(12)]
 # durations used by the HybridCache exploration alphabet: DUR[key][value index]; some ties on purpose
 DUR = {"a": [1.0, 2.0], "b": [1.0, 4.0], "c": [0.5, 2.0]}
-SEQ_KEYS = ["a", "b", "c", 0, 1, ["t", 2], "d", ["a"], 7, "e"]  # JSON lists become tuples
+SEQ_KEYS = ["a", "b", ["tt", "tt"], 0, 1, ["t", 2], "d", ["a"], 7, "e"]  # JSON lists become tuples
 TOL = 1e-12
 
 
@@ -115,6 +115,18 @@ def exc_site(e: BaseException) -> str:
 
 def _key(k):
     return tuple(_key(x) for x in k) if isinstance(k, list) else k
+
+
+def _rekey(k, n: int):
+    """An equal key with another object graph: a tuple of equal strings is rebuilt for every operation, alternately
+    with all equal leaves being one shared object and with every leaf being an object of its own (what callers
+    produce naturally: `(s, s)` vs. two strings read from different places)."""
+    if not (isinstance(k, tuple) and len(k) >= 2 and all(isinstance(x, str) and len(x) >= 2 for x in k)):
+        return k
+    if n % 2:
+        return tuple("".join(list(x)) for x in k)
+    made: dict = {}
+    return tuple(made.setdefault(x, "".join(list(x))) for x in k)
 
 
 # =================================================================================================
@@ -1127,6 +1139,8 @@ def body_seq(data) -> Outcome:
                     nt_get_victim = True
                 if cls == "disk" and model.mem is not None and op[1] in model.mem and op[1] not in model.files:
                     labels.append("disk:served-from-memory-after-file-eviction")
+            if len(op) > 1 and op[0] in ("put", "get", "in"):
+                op = [op[0], _rekey(op[1], len(path)), *op[2:]]
             before = set(_resident(model))
             path.append(op)
             where = fmt_path(path[-12:]) + (f" (op {len(path)}{', tail' if is_tail else ''})")
